@@ -10,8 +10,8 @@ failures of the other L2 oracles (owned by C01/C02/C05/C06/C07) are listed as
 notes in the evidence."""
 from .. import vnetcase
 
-LEAN_TARGETS = ["SqVerif.Props.C01", "SqVerif.Props.C01Run", "SqVerif.Props.C01Engine"]
-PROPS_FILE = ["SqVerif/Props/C01.lean", "SqVerif/Props/C01Run.lean", "SqVerif/Props/C01Engine.lean"]
+LEAN_TARGETS = ["SqVerif.Props.C01", "SqVerif.Props.C01Run", "SqVerif.Props.C01Engine", "SqVerif.Props.C01Joint"]
+PROPS_FILE = ["SqVerif/Props/C01.lean", "SqVerif/Props/C01Run.lean", "SqVerif/Props/C01Engine.lean", "SqVerif/Props/C01Joint.lean"]
 DRIVE_TARGETS = ["SqVerif.Drive.VNet"]
 TRUSTED = [
     "model VNet.lean hand-written from virtual.py / quantum.py (after the repairs F1 F2 F3); tied by differential execution "
